@@ -6,6 +6,7 @@ import (
 	"fmt"
 	"html/template"
 	"net/http"
+	"strings"
 	"time"
 
 	"github.com/zitadel/saml/pkg/provider/xml"
@@ -87,7 +88,12 @@ func (r *Response) sendBackResponse(
 			return
 		}
 
-		http.Redirect(w, req, fmt.Sprintf("%s?%s", r.AcsUrl, BuildRedirectQuery(string(respData), r.RelayState, r.SigAlg, r.Signature)), http.StatusFound)
+		separator := "?"
+		if strings.Contains(r.AcsUrl, "?") {
+			// the registered consumer URL already carries a query
+			separator = "&"
+		}
+		http.Redirect(w, req, r.AcsUrl+separator+BuildRedirectQuery(string(respData), r.RelayState, r.SigAlg, r.Signature), http.StatusFound)
 		return
 	default:
 		//TODO: no binding
